@@ -10,6 +10,7 @@ import (
 	"crypto/tls"
 	"fmt"
 	"io"
+	"math/rand"
 	"net"
 	"os"
 	"path/filepath"
@@ -27,6 +28,22 @@ import (
 	"github.com/imroc/req/v3/internal/verifh"
 	"github.com/klauspost/compress/zstd"
 )
+
+// c07Intn is rand.Intn that tolerates n <= 0 (an empty thing to cut / index: 0).
+func c07Intn(r *rand.Rand, n int) int {
+	if n <= 0 {
+		return 0
+	}
+	return r.Intn(n)
+}
+
+// c07Gen runs a case generator of the harness itself: a panic in it is an error of the check (bin/check
+// exit 2), never a finding about the implementation.
+func c07Gen(t *testing.T, what string, f func()) {
+	if ptxt, panicked := verifh.Safely(f); panicked {
+		t.Fatalf("harness error: the %s generator panicked (the check is broken, not the implementation; no tests to run): %s", what, ptxt)
+	}
+}
 
 // ---------------------------------------------------------------- Alt-Svc unit lane
 
@@ -345,7 +362,7 @@ func c07Response(s *verifh.Session, selfURL string) ([]byte, []string) {
 		case 0: // valid
 			payload = comp
 		case 1: // truncated
-			payload = comp[:r.Intn(len(comp))]
+			payload = comp[:c07Intn(r, len(comp))]
 			tag("ce-truncated")
 		case 2: // garbage
 			payload = []byte(verifh.RandBytes(r, r.Intn(64), ""))
@@ -356,7 +373,7 @@ func c07Response(s *verifh.Session, selfURL string) ([]byte, []string) {
 		case 4: // bit flips
 			payload = append([]byte{}, comp...)
 			for k := 1 + r.Intn(3); k > 0 && len(payload) > 0; k-- {
-				payload[r.Intn(len(payload))] ^= 1 << uint(r.Intn(8))
+				payload[c07Intn(r, len(payload))] ^= 1 << uint(r.Intn(8))
 			}
 			tag("ce-bitflip")
 		case 5: // two members / frames back to back
@@ -394,7 +411,7 @@ func c07Response(s *verifh.Session, selfURL string) ([]byte, []string) {
 		var cb bytes.Buffer
 		rest := payload
 		for len(rest) > 0 {
-			n := 1 + r.Intn(len(rest))
+			n := 1 + c07Intn(r, len(rest))
 			fmt.Fprintf(&cb, "%x", n)
 			if r.Intn(6) == 0 {
 				cb.WriteString(verifh.Pick(r, []string{";ext=1", ";" + strings.Repeat("e", 5000), " ", ";\"q\""}))
@@ -469,7 +486,7 @@ func c07Response(s *verifh.Session, selfURL string) ([]byte, []string) {
 	// byte-level mutation
 	if r.Intn(5) == 0 && len(res) > 0 {
 		for k := 1 + r.Intn(3); k > 0; k-- {
-			i := r.Intn(len(res))
+			i := c07Intn(r, len(res))
 			switch r.Intn(3) {
 			case 0:
 				res[i] = byte(r.Intn(256))
@@ -485,7 +502,7 @@ func c07Response(s *verifh.Session, selfURL string) ([]byte, []string) {
 		tag("mutated")
 	}
 	if r.Intn(8) == 0 && len(res) > 0 {
-		res = res[:r.Intn(len(res))]
+		res = res[:c07Intn(r, len(res))]
 		tag("cut")
 	}
 	return res, tags
@@ -578,8 +595,10 @@ func TestVerif_C07_h1hostile(t *testing.T) {
 	g0 := runtime.NumGoroutine()
 	n := verifh.N(700, 20000)
 	for i := 0; i < n; i++ {
-		resp, tags := c07Response(s, base)
-		oi := s.Rand().Intn(len(opts))
+		var resp []byte
+		var tags []string
+		c07Gen(t, "h1hostile response", func() { resp, tags = c07Response(s, base) })
+		oi := c07Intn(s.Rand(), len(opts))
 		base := plainBase
 		if opts[oi].name == "https-http3-enabled" && peer.tlsLn != nil {
 			base = "https://" + peer.tlsLn.Addr().String()
